@@ -27,6 +27,7 @@ Conforms(o) ==
   /\ IF o.layer = "plugin"
      THEN /\ o.out.served                            \* the plugin came up and printed a line
           /\ o.out.line_version = a[1] /\ o.out.line_proto = a[2]
+          /\ o.out.plugin_tag = a[1]               \* and serves the set registered under the version it announced
      ELSE LET H == SetOf(o.host) IN
           /\ Understood(o) = H                       \* a real client sends exactly what it offers
           /\ IF a[1] \in H
